@@ -97,6 +97,13 @@ fn base_cfg(pattern: &str, i: usize, seed: u64, real: bool) -> HsCfg {
         // psks through the builder, through set_psk after build (both / one side), an extra unused psk slot
         psk_via: [0u8, 1, 0, 2, 0, 3, 1][(i / 2 + (seed as usize % 5)) % 7],
         extra_psk: (i + (seed as usize % 3)) % 4 == 1,
+        // NoiseParams.name replaced by a free-form string (same on both sides): shorter than the hash (padded),
+        // longer (hashed), empty, non-ASCII
+        alias: match (i + (seed as usize % 4)) % 9 {
+            2 => Some(format!("AcmeLink/1.0_{pattern}_custom-name-that-is-longer-than-any-hash-output-of-64-bytes_{i}")),
+            5 => Some(["A", "", "Noise", "nöise_ü"][i % 4].to_string()),
+            _ => None,
+        },
         seed: r.next(),
     }
 }
@@ -161,7 +168,7 @@ fn gen_hs(run: &mut Run, prop: &str, seed: u64, thorough: bool) {
                         if rep % 2 == 1 {
                             cfg.fixed_e = true;
                         }
-                        if prop == "C02" && r.chance(1, 3) {
+                        if (prop == "C02" || prop == "C01") && r.chance(1, 3) {
                             let k = r.below(nm);
                             cfg.payload_lens[k] = 65535; // clipped to the maximum for that message
                         }
@@ -298,7 +305,7 @@ fn run_tamper_continue(cfg: &HsCfg, k_alt: usize, field: usize, sc: &mut Sc, r: 
     let (Some(pub_i), Some(pub_r)) = (pub_of(&cfg.res_i, &cfg.dh, &s_i), pub_of(&cfg.res_r, &cfg.dh, &s_r)) else { return };
     let pub_len = pub_i.len();
     let psk: Vec<(u8, Vec<u8>)> = cfg.psks.iter().map(|n| (*n, vec![0x11 + *n; 32])).collect();
-    let mk = |initiator: bool, kr: &mut Rng64| BuildSpec {
+    let mk = |initiator: bool, kr: &mut Rng64| BuildSpec { alias: None,
         name: name.clone(),
         initiator,
         resolver: cfg.res_i.clone(),
@@ -398,7 +405,7 @@ fn gen_builder_new(run: &mut Run, seed: u64, thorough: bool) {
             let psk: Vec<(u8, Vec<u8>)> = cfg.psks.iter().map(|n| (*n, kr.bytes(32))).collect();
             let mut sc = Sc::new();
             sc.ex.comment(&format!("Builder::new {name}"));
-            let mk = |initiator: bool| BuildSpec {
+            let mk = |initiator: bool| BuildSpec { alias: None,
                 name: name.clone(),
                 initiator,
                 resolver: "new".into(),
@@ -488,7 +495,12 @@ fn gen_mismatch(run: &mut Run, seed: u64, thorough: bool) {
                 if cfg.psks.is_empty() && rep % 2 == 0 && pi % 2 == 0 {
                     cfg.psks = vec![0];
                 }
-                for kind in 0..9 {
+                if real && (pi + rep + seed as usize) % 2 == 0 {
+                    // the ring backend for what it provides (the others come from the default resolver)
+                    cfg.res_i = "fb(ring,default)".into();
+                    cfg.res_r = if (pi / 2) % 2 == 0 { "fb(ring,default)".into() } else { "default".into() };
+                }
+                for kind in 0..10 {
                     // prologues of structurally interesting lengths (hash block boundaries, the 65535-byte message
                     // limit and multiples of it: a prologue is the one hashed input that may exceed it): every pattern
                     // with the short ones, a rotating eighth of the patterns with the long ones
@@ -536,7 +548,7 @@ fn run_mismatch(cfg: &HsCfg, kind: usize, slot: Option<usize>, sc: &mut Sc, r: &
         return false;
     };
     let psk: Vec<(u8, Vec<u8>)> = cfg.psks.iter().map(|n| (*n, vec![0x21 + *n; 32])).collect();
-    let mut spec_i = BuildSpec {
+    let mut spec_i = BuildSpec { alias: None,
         name: name.clone(),
         initiator: true,
         resolver: cfg.res_i.clone(),
@@ -547,7 +559,7 @@ fn run_mismatch(cfg: &HsCfg, kind: usize, slot: Option<usize>, sc: &mut Sc, r: &
         prologue: Some(b"prologue".to_vec()),
         rng: kr.bytes(64),
     };
-    let mut spec_r = BuildSpec {
+    let mut spec_r = BuildSpec { alias: None,
         name: name.clone(),
         initiator: false,
         resolver: cfg.res_r.clone(),
@@ -614,6 +626,23 @@ fn run_mismatch(cfg: &HsCfg, kind: usize, slot: Option<usize>, sc: &mut Sc, r: &
             }
             "psk replaced by set_psk on one side"
         },
+        9 => {
+            // two different name strings that select the same pattern and primitives: the spelling `psk01` for
+            // `psk1`, or NoiseParams.name set to different free-form strings
+            if !cfg.psks.is_empty() && r.chance(1, 2) {
+                let alt: Vec<String> = cfg.psks.iter().enumerate().map(|(j, n)| if j == 0 { format!("psk0{n}") } else { format!("psk{n}") }).collect();
+                spec_r.name = format!("Noise_{}{}_{}_{}_{}", cfg.pattern, alt.join("+"), cfg.dh, cfg.cipher, cfg.hash);
+                "spelling of the psk modifier in the protocol name (psk0N)"
+            } else {
+                let base = if r.chance(1, 2) { "AcmeLink/1".to_string() } else { format!("AcmeLink/1_{name}_padding-to-exceed-the-length-of-a-64-byte-hash-value") };
+                let mut other = base.clone().into_bytes();
+                let j = r.below(other.len());
+                other[j] = if other[j] == b'2' { b'3' } else { b'2' };
+                spec_i.alias = Some(base);
+                spec_r.alias = Some(String::from_utf8(other).unwrap());
+                "free-form NoiseParams.name"
+            }
+        },
         7 | 8 => {
             // prologues of a structurally interesting length that differ in one byte (first / middle / last), or one
             // is the other cut short by a few bytes at the end
@@ -674,7 +703,10 @@ fn run_mismatch(cfg: &HsCfg, kind: usize, slot: Option<usize>, sc: &mut Sc, r: &
             failed = true;
             break;
         };
-        let o = sc.ex.hs_read(rd, &m, 400);
+        // payload buffers: generous, exactly the payload's size, and with 1..15 spare bytes (a backend that needs
+        // room for the tag takes another path then)
+        let rcap = [400usize, 8, 9, 23, 24, 400][r.below(6)];
+        let o = sc.ex.hs_read(rd, &m, rcap);
         sc.check_panic(&o, "hs_read");
         if !o.is_ok() {
             failed = true;
@@ -791,7 +823,7 @@ fn gen_low_order(run: &mut Run, seed: u64) {
         for re in &points {
             let mut sc = Sc::new();
             sc.ex.comment(&format!("low-order remote ephemeral {name}"));
-            let spec = BuildSpec {
+            let spec = BuildSpec { alias: None,
                 name: name.into(),
                 initiator: false,
                 resolver: "default".into(),
@@ -1058,7 +1090,7 @@ fn exec_line(ex: &mut Exec, line: &str) {
         },
         "build" => {
             let psks = kv(&parts, "psks");
-            let spec = BuildSpec {
+            let spec = BuildSpec { alias: kv(&parts, "alias").strip_prefix('x').map(|h| String::from_utf8_lossy(&b(h)).into_owned()),
                 name: String::from_utf8_lossy(&b(parts[3])).into_owned(),
                 initiator: parts[2] == "i",
                 resolver: kv(&parts, "res").into(),
